@@ -31,9 +31,10 @@ theorem C13_atomic_durable (P : Program) (dir : Path) (key data : Bytes) (o : Op
       (crash c (run s ((uploadTrace P dir key data o rnd s).1.take k))).object (dir ++ comps) = some data) ∧
     ((uploadTrace P dir key data o rnd s).2 = .ok →
       (∀ c : CrashChoice, (crash c (run s (uploadTrace P dir key data o rnd s).1)).object (dir ++ comps) = some data) ∧
-      (run s (uploadTrace P dir key data o rnd s).1).object (dir ++ comps) = some data) := by
+      (run s (uploadTrace P dir key data o rnd s).1).object (dir ++ comps) = some data ∧
+      Quiescent (run s (uploadTrace P dir key data o rnd s).1)) := by
   obtain ⟨h1, h2⟩ := upload_atomic_durable P dir key data o rnd s comps hq hwf hfr hloc hne
-  exact ⟨fun k c => h1 k c, fun hok => ⟨fun c => (h2 hok).1 c, (h2 hok).2⟩⟩
+  exact ⟨fun k c => h1 k c, fun hok => ⟨fun c => (h2 hok).1 c, (h2 hok).2.1, (h2 hok).2.2⟩⟩
 
 /-- The state found after any power loss is quiescent, whatever was going on. -/
 theorem C13_quiescent_after_crash (c : CrashChoice) (s : FS) : Quiescent (crash c s) := by
@@ -47,6 +48,30 @@ theorem C13_quiescent_after_crash (c : CrashChoice) (s : FS) : Quiescent (crash 
     obtain ⟨f0, _, rfl⟩ := hf
     unfold crashFile
     split <;> simp_all
+
+/-- The hypotheses of `C13_atomic_durable` are not an idealisation: they hold in every state
+reachable from a good state by uploads that returned nil and by power losses at ANY point of ANY
+upload (followed by the reboot). `Inv` (entries have records, inode numbers are below `next`)
+implies `WF` and `FreshInodes` and holds in every state an upload goes through. -/
+inductive Reach (P : Program) (dir : Path) (s0 : FS) : FS → Prop where
+  | init : Reach P dir s0 s0
+  | upload (s : FS) (key data : Bytes) (o : Opts) (rnd : Name) (comps : Path) :
+      Reach P dir s0 s → localize key = some comps → dir ++ comps ≠ [] →
+      (uploadTrace P dir key data o rnd s).2 = .ok → Reach P dir s0 (run s (uploadTrace P dir key data o rnd s).1)
+  | powerLoss (s : FS) (key data : Bytes) (o : Opts) (rnd : Name) (k : Nat) (c : CrashChoice) :
+      Reach P dir s0 s → Reach P dir s0 (crash c (run s ((uploadTrace P dir key data o rnd s).1.take k)))
+
+theorem C13_hypotheses_reachable (P : Program) (dir : Path) (s0 s : FS) (hq0 : Quiescent s0) (hi0 : Inv s0)
+    (h : Reach P dir s0 s) : Quiescent s ∧ WF s ∧ FreshInodes s := by
+  suffices hs : Quiescent s ∧ Inv s from ⟨hs.1, hs.2.wf, hs.2.fresh⟩
+  induction h with
+  | init => exact ⟨hq0, hi0⟩
+  | upload s key data o rnd comps _ hloc hne hok ih =>
+    refine ⟨((C13_atomic_durable P dir key data o rnd s comps ih.1 ih.2.wf ih.2.fresh hloc hne).2 hok).2.2, ?_⟩
+    have := upload_inv P dir key data o rnd s ih.2 (uploadTrace P dir key data o rnd s).1.length
+    simpa using this
+  | powerLoss s key data o rnd k c _ ih =>
+    exact ⟨C13_quiescent_after_crash c _, (upload_inv P dir key data o rnd s ih.2 k).crash c⟩
 
 /-! Non-vacuity: a world with a synced backend directory `r` satisfies the hypotheses; a first
 upload of `a/b` (new directory, immutable) issues 23 system calls; a crash after 21 of them leaves
@@ -92,6 +117,30 @@ theorem demo_wf : WF demoWorld := by
       · cases hn
     · split at hd
       · cases hd; cases hn
+      · cases hd
+
+theorem demo_inv : Inv demoWorld := by
+  refine ⟨by simp [demoWorld], ?_, ?_⟩
+  · intro a d n hd hm
+    simp only [demoWorld] at hd
+    split at hd
+    · rename_i ha
+      cases hd
+      simp only [cands, List.filter_nil, List.map_nil, List.mem_singleton] at hm
+      split at hm
+      · rename_i hn'; subst ha; subst hn'; simp [demoWorld]
+      · cases hm
+    · split at hd
+      · cases hd; simp [cands, Dir.empty] at hm
+      · cases hd
+  · intro a d n i hd hm
+    simp only [demoWorld] at hd
+    split at hd
+    · cases hd
+      simp only [cands, List.filter_nil, List.map_nil, List.mem_singleton] at hm
+      split at hm <;> cases hm
+    · split at hd
+      · cases hd; simp [cands, Dir.empty] at hm
       · cases hd
 
 theorem demo_fresh : FreshInodes demoWorld := by
@@ -183,7 +232,7 @@ theorem C13_immutable_after_upload (P : Program) (hP : P.Progress) (dir : Path) 
     (run s1 (uploadTrace P dir key data imm rnd' s1).1).object (dir ++ comps) = some d := by
   intro s1
   have hobj : s1.object (dir ++ comps) = some d :=
-    ((C13_atomic_durable P dir key d imm rnd s comps hq hwf hfr hloc hne).2 hfirst).2
+    ((C13_atomic_durable P dir key d imm rnd s comps hq hwf hfr hloc hne).2 hfirst).2.1
   obtain ⟨h1, h2⟩ := C13_immutable P hP dir key data d rnd' s1 comps hloc hne hobj
   exact ⟨h1, by rw [h2]; exact hobj⟩
 
